@@ -263,11 +263,12 @@ func C05(c *Ctx) {
 	}
 	p.W[gast.AndCode] = 8
 	p.W[gast.NotCode] = 5
-	p.StateSpec = func(r *rand.Rand) mon.Spec { return mon.Spec{S: 1 + r.Intn(31), G: r.Intn(2) == 0} }
+	p.StateSpec = func(r *rand.Rand) mon.Spec { return mon.Spec{S: 1 + r.Intn(127), G: r.Intn(2) == 0} }
 	nKept := 0
 	strata := append(c05Strata(), rollbackStrata()...)
 	for i, g := range strata {
 		g.IndirectState = i%2 == 1
+		g.StateHelperExtern = i%4 == 3 // the helper lives in another file of the package
 	}
 	cfg := &MCConfig{
 		Profile: p, Grammars: strata, NGrammars: c.N(110, 1500),
@@ -283,6 +284,7 @@ func C05(c *Ctx) {
 			g.Finalize()
 			nKept++
 			g.IndirectState = nKept%3 == 0 // every third grammar reaches c.state through a helper function
+			g.StateHelperExtern = nKept%6 == 0
 			return g.UsesState
 		},
 	}
@@ -396,7 +398,17 @@ func c05Strata() []*gast.Grammar {
 	r := func(n string, e *gast.Expr) *gast.Rule { return &gast.Rule{Name: n, Expr: e} }
 	box := mon.Spec{S: 4 | 1 | 2}
 	obs := func(id int) *gast.Expr { return gast.AndC(id, mon.Spec{}) }
+	cls := func(s string) *gast.Expr { return gast.Cl(gast.Chars(s)) }
 	return []*gast.Grammar{
+		// a Cloner value that leaves the store (deleted, or replaced by a plain value) in an alternative
+		// that fails after further snapshots were taken; the rollback brings it back, and an in-place
+		// change made to it in the next failing alternative must be rolled back like any other
+		mk(r("S", gast.S(gast.St(1, mon.Spec{S: 4}), gast.Ref("Body"), gast.NotE(gast.Dot()))), r("Body", gast.C(gast.Ref("Drop"), gast.Ref("Replace"), gast.Ref("Push"), gast.Ref("Plain"))),
+			r("Drop", gast.S(gast.AndE(gast.L("d")), gast.St(2, mon.Spec{S: 32 | 1}), gast.C(gast.L("x"), gast.L("y")))),
+			r("Replace", gast.S(gast.AndE(gast.L("s")), gast.St(3, mon.Spec{S: 64 | 1}), gast.C(gast.L("x"), gast.L("y")))),
+			r("Push", gast.S(gast.St(4, mon.Spec{S: 4 | 1}), gast.Opt(cls("ds")), gast.L("z"))), r("Plain", gast.S(gast.Opt(cls("ds")), gast.L("a"), obs(5)))),
+		mk(r("S", gast.S(gast.St(1, mon.Spec{S: 4}), gast.Star(gast.C(gast.S(gast.L("d"), gast.St(2, mon.Spec{S: 32}), gast.Opt(gast.L("q")), gast.L("!")), gast.S(gast.L("s"), gast.St(3, mon.Spec{S: 64}), gast.Star(gast.L("q")), gast.L("!")),
+			gast.S(gast.St(4, mon.Spec{S: 4}), gast.Opt(cls("ds")), gast.L("z")), gast.S(cls("dsa"), obs(5)))), obs(6)))),
 		// state change inside a failing choice alternative, observed afterwards
 		mk(r("S", gast.S(gast.St(1, box), gast.C(gast.S(gast.L("a"), gast.St(2, box), gast.L("x")), gast.S(gast.L("a"), obs(3))), gast.Star(gast.Dot()), obs(4)))),
 		// inside & and !
@@ -635,6 +647,11 @@ func c12Strata() []*gast.Grammar {
 	digit := func() *gast.Expr { return gast.Cl(&gast.ClassSpec{Ranges: [][2]rune{{'0', '9'}}}) }
 	return []*gast.Grammar{
 		wide,
+		// alternatives that can never be chosen (a literal after a literal that is its prefix, a class
+		// after a wider class, the same terminal twice) still fail where they are tried and belong to
+		// the expected set
+		mk(r("S", gast.S(gast.Plus(gast.Cl(gast.Chars("ab"))), gast.Star(gast.L(" ")), gast.C(gast.L("<"), gast.L("<="), gast.L("="), gast.L("=="), gast.L("!="), gast.Li("x"), gast.Li("xy")), gast.Star(gast.L(" ")), gast.Plus(gast.Cl(gast.Chars("ab"))), gast.NotE(gast.Dot())))),
+		mk(r("S", gast.S(gast.Star(gast.C(gast.Cl(gast.Chars("abc")), gast.Cl(gast.Chars("ab")), gast.L("a"), gast.L("ab"), gast.Dot(), gast.L("zz"))), gast.C(gast.L("k"), gast.L("k"), gast.L("kk"))))),
 		// end of input expected on several backtracking paths at the farthest offset
 		mk(r("S", gast.C(gast.S(gast.Ref("A"), gast.L(";")), gast.S(gast.Ref("A"), gast.NotE(gast.Dot())), gast.S(gast.Ref("A"), gast.Star(gast.L(" ")), gast.NotE(gast.Dot())), gast.S(gast.Ref("A"), gast.NotE(gast.NotE(gast.NotE(gast.Dot())))))),
 			r("A", gast.S(gast.Cl(gast.Chars("ab")), gast.L("="), gast.Plus(digit())))),
